@@ -514,3 +514,70 @@ class ScriptedNormal:
         finally:
             self.uninstall()
         return res, self.pos
+
+
+# ------------------------------------------------------- real-representation ---
+class Layout:
+    """real coordinates of Fields / MultiFields with a per-key complex flag: a complex key
+    contributes [Re, Im], a real key only its values (keys in domain order)"""
+
+    def __init__(self, dom, cplx=False):
+        import nifty.cl as ift
+        self.dom = dom
+        self.multi = isinstance(dom, ift.MultiDomain)
+        if self.multi:
+            self.keys = list(dom.keys())
+            self.cplx = {k: (cplx[k] if isinstance(cplx, dict) else bool(cplx)) for k in self.keys}
+            self.sizes = {k: dom[k].size for k in self.keys}
+            self.size = sum(self.sizes[k] * (2 if self.cplx[k] else 1) for k in self.keys)
+        else:
+            self.cplx = bool(cplx)
+            self.size = dom.size * (2 if self.cplx else 1)
+
+    @staticmethod
+    def _part(a, cplx, project=False):
+        a = np.asarray(a).reshape(-1)
+        if cplx:
+            return np.concatenate([a.real, a.imag]).astype(np.float64)
+        if np.iscomplexobj(a):
+            if not project and \
+                    np.max(np.abs(a.imag), initial=0.0) > 1e-12 * max(np.max(np.abs(a), initial=0.0), 1e-300):
+                raise ValueError("complex values in a real layout")
+            a = a.real
+        return a.astype(np.float64)
+
+    def to_vec(self, f, project=False):
+        """project=True: a complex value on a real key is orthogonally projected onto the real axis (the
+        gradient / metric action w.r.t. real parameters is the real part of the complex cotangent)"""
+        if self.multi:
+            return np.concatenate([self._part(f[k].asnumpy(), self.cplx[k], project) for k in self.keys])
+        return self._part(f.asnumpy(), self.cplx, project)
+
+    def from_vec(self, v):
+        import nifty.cl as ift
+        v = np.asarray(v, dtype=np.float64)
+        if not self.multi:
+            n = self.dom.size
+            z = v[:n] + 1j * v[n:] if self.cplx else v[:n].copy()
+            return ift.makeField(self.dom, z.reshape(self.dom.shape))
+        d, o = {}, 0
+        for k in self.keys:
+            n = self.sizes[k]
+            if self.cplx[k]:
+                z = v[o:o + n] + 1j * v[o + n:o + 2 * n]
+                o += 2 * n
+            else:
+                z = v[o:o + n].copy()
+                o += n
+            d[k] = ift.makeField(self.dom[k], z.reshape(self.dom[k].shape))
+        return ift.MultiField.from_dict(d, self.dom)
+
+
+def dense_map(fn, lin, lout, project=False):
+    """real matrix of the (real-)linear map fn between two Layouts"""
+    M = np.zeros((lout.size, lin.size))
+    for j in range(lin.size):
+        e = np.zeros(lin.size)
+        e[j] = 1.0
+        M[:, j] = lout.to_vec(fn(lin.from_vec(e)), project)
+    return M
